@@ -23,7 +23,10 @@ For every case the real schema is built from generated XSD text, the instance is
   S   the property itself: an independent Python reading of the XSD rules on the generator's abstract
       table (tiny path evaluator, value classes) and the Lean `specClauses` (whose per-scope checks are
       the Prop-valued spec of Props/C08.lean) -> a difference between I and S is a failing input unless it
-      is one of the listed findings F3, F4, F5 (exact rules in `known_match`).  F6 (unique compared partially
+      is one of the listed findings F3, F4, F5, F8 (exact rules in `known_match`; F8 = a QName field on a child
+      element with xmlns declarations of its own is resolved with the selected node's map; `detect_mode` replays its
+      witness and switches the driver to the repaired variant of the model when the tree resolves at the field
+      node, the rule then disappears).  F6 (unique compared partially
       absent tuples) and F7 (KeyError when the referenced key never occurs) are FIXED in the library: they
       have no match rule any more, so a recurrence is reported as a violation; their witnesses are replayed
       on every run as ordinary cases (WITNESSES, corpus/C08) and must now satisfy the property.
@@ -49,13 +52,19 @@ RULE = ('a case is one (schema template, constraint set, document) triple; non-t
 TRUSTED = ['selector / field XPath evaluation by elementpath is cross-checked by the Lean path evaluator '
            '(Model/Identity.lean `Path.elems`) and by an independent Python evaluator in this file; only the restricted '
            'syntax child steps, *, ., .//, @attr and | is generated',
-           'declared types of field nodes are read from the built schema components (attribute/element type names)']
+           'declared types of field nodes are read from the built schema components (attribute/element type names)',
+           'xmlns declarations of the instance elements are read from the loaded resource (XMLResource.get_xmlns) and the '
+           'initial namespace map from NamespaceMapper(namespaces, source=resource): the loader (expat / lxml) and '
+           'the construction of the initial map are inputs of the model, not modelled (C17 covers the mapper)']
 ASSUMPTIONS = ['documents are valid apart from identity constraints (checked: any other error kind aborts the case as a '
                'generator fault)',
                'at most one ID attribute per element, no list-valued fields, no xsi:type inside constraint scopes '
                '(C10 covers the xsi:type widening)',
                'keyref tuples that match a key value present in more than one scope instance of the referenced key '
-               '(XSD conflict rule) are not judged: the property text does not fix that case']
+               '(XSD conflict rule) are not judged: the property text does not fix that case',
+               'every prefix used in a QName value is declared in the document at the node that carries it; fully loaded '
+               'resources only (lazy validation and the opt-in lossy xmlns_processing modes collapsed / root-only / none '
+               'are not exercised)']
 FINDINGS_FILE = VERIF / 'notes' / 'findings' / 'C08.json'
 
 XS = 'http://www.w3.org/2001/XMLSchema'
@@ -161,7 +170,7 @@ def a_select(xpath: str, n: dict) -> list[dict]:
 # ------------------------------------------------------------------------------------------------
 # generator
 # ------------------------------------------------------------------------------------------------
-def gen_fields(rng, nf: int, qbias: float = 0.0) -> list[dict]:
+def gen_fields(rng, nf: int, qbias: float = 0.0, derived: bool = False) -> list[dict]:
     """fields of the key side (rows `item`) and of the keyref side (rows `ref`)"""
     fs = []
     for i in range(nf):
@@ -175,6 +184,10 @@ def gen_fields(rng, nf: int, qbias: float = 0.0) -> list[dict]:
             rty = rng.choice(TYPES)
         fs.append({'name': f'f{i + 1}', 'loc': rng.choice(['attr', 'attr', 'child']), 'ty': ty,
                    'rloc': rng.choice(['attr', 'attr', 'child']), 'rty': rty})
+        if derived and rng.random() < 0.5:
+            fs[-1]['d'] = True
+        if derived and rng.random() < 0.5:
+            fs[-1]['rd'] = True
     return fs
 
 
@@ -283,10 +296,12 @@ def schema_text(case: dict) -> str:
         kids, attrs = [], []
         for f in fields:
             loc, ty = (f['loc'], f['ty']) if side == 'item' else (f['rloc'], f['rty'])
+            # `d` / `rd`: the field is declared with a user-defined restriction of the built-in type
+            tyn = f'{pf}d_{ty}' if f.get('d' if side == 'item' else 'rd') else f'xs:{ty}'
             if loc == 'child':
-                kids.append(f'<xs:element name="{f["name"]}" type="xs:{ty}" minOccurs="0"/>')
+                kids.append(f'<xs:element name="{f["name"]}" type="{tyn}" minOccurs="0"/>')
             else:
-                attrs.append(f'<xs:attribute name="{f["name"]}" type="xs:{ty}"/>')
+                attrs.append(f'<xs:attribute name="{f["name"]}" type="{tyn}"/>')
         attrs.append('<xs:attribute name="id" type="xs:ID"/>' if tag == 'item'
                      else '<xs:attribute name="idr" type="xs:IDREF"/>')
         return (f'<xs:element name="{tag}"><xs:complexType><xs:sequence>'
@@ -317,7 +332,9 @@ def schema_text(case: dict) -> str:
     notes = (f'<xs:complexType name="noteT"><xs:sequence><xs:element ref="{pf}note" minOccurs="0" '
              f'maxOccurs="unbounded"/></xs:sequence></xs:complexType>'
              f'<xs:element name="note" type="{pf}noteT"/><xs:element name="pre" type="{pf}noteT"/>')
-    return (head + container('root') + container('sec') + row_decl('item') + row_decl('ref') + notes
+    derived = ''.join(f'<xs:simpleType name="d_{ty}"><xs:restriction base="xs:{ty}"/></xs:simpleType>'
+                      for ty in TYPES) if any(f.get('d') or f.get('rd') for f in fields) else ''
+    return (head + container('root') + container('sec') + row_decl('item') + row_decl('ref') + notes + derived
             + '</xs:schema>')
 
 
@@ -597,9 +614,17 @@ def run_impl(case: dict) -> dict:
     decls_json: dict[int, list[int]] = {}
 
     def ty_tag(t) -> Optional[str]:
-        n = (t.name or '').split('}')[-1] if t is not None else ''
-        return {'integer': 'integer', 'decimal': 'decimal', 'boolean': 'boolean', 'string': 'string',
-                'QName': 'qname'}.get(n)
+        """the built-in type the declared type is (or is derived from by restriction)"""
+        tags = {'integer': 'integer', 'decimal': 'decimal', 'boolean': 'boolean', 'string': 'string', 'QName': 'qname'}
+        for _ in range(8):
+            if t is None:
+                return None
+            if (t.name or '').startswith('{%s}' % XS) and (t.name or '').split('}')[-1] in tags:
+                return tags[t.name.split('}')[-1]]
+            if (t.name or '').startswith('{%s}' % XS):
+                return None
+            t = getattr(t, 'base_type', None)
+        return None
 
     def ser(e: ET.Element) -> dict:
         xe = decl_of.get(id(e))
@@ -1007,7 +1032,7 @@ def random_case(rng, big: bool) -> dict:
     nsmode = rng.choice(['root', 'root', 'scatter', 'scatter', 'scatter'])
     tns = rng.random() < 0.4
     nf = rng.choice([1, 1, 2, 2, 3])
-    fields = gen_fields(rng, nf, 0.5 if nsmode == 'scatter' else 0.0)
+    fields = gen_fields(rng, nf, 0.5 if nsmode == 'scatter' else 0.0, rng.random() < 0.25)
     recursive = rng.random() < 0.12
     cons = gen_constraints(rng, fields, recursive)
     case = {'v': rng.choice(['1.0', '1.0', '1.1']), 'recursive': recursive, 'fields': fields, 'cons': cons,
@@ -1031,6 +1056,8 @@ def ns_stats(case: dict) -> list[str]:
     out = {'ns:src=' + case.get('src', 'etree') + ('+namespaces-arg' if case.get('nsarg') else '')}
     if case.get('tns'):
         out.add('ns:target-namespace-template')
+    if any(f.get('d') or f.get('rd') for f in fields):
+        out.add('type:field-declared-with-user-restriction-of-builtin')
     scope = scopes_of(case)
     root = case['doc']
 
